@@ -291,17 +291,19 @@ func (ls *LState) RegisterModule(name string, funcs map[string]LGFunction) LValu
 	mod := ls.GetField(tb, name)
 	if mod.Type() != LTTable {
 		newmod := ls.FindTable(ls.Get(GlobalsIndex).(*LTable), name, len(funcs))
-		if newmodtb, ok := newmod.(*LTable); !ok {
+		newmodtb, ok := newmod.(*LTable)
+		if !ok {
 			ls.RaiseError("name conflict for module(%v)", name)
-		} else {
-			for fname, fn := range funcs {
-				newmodtb.RawSetString(fname, ls.NewFunction(fn))
-			}
-			ls.SetField(tb, name, newmodtb)
-			return newmodtb
 		}
+		ls.SetField(tb, name, newmodtb)
+		mod = newmodtb
 	}
-	return mod
+	// like luaL_register: the functions are stored also when the module table already exists
+	modtb := mod.(*LTable)
+	for fname, fn := range funcs {
+		modtb.RawSetString(fname, ls.NewFunction(fn))
+	}
+	return modtb
 }
 
 func (ls *LState) SetFuncs(tb *LTable, funcs map[string]LGFunction, upvalues ...LValue) *LTable {
